@@ -197,8 +197,10 @@ def translate(row, sid, cfg=None):
             out.append(f"oHist {r['b']} {lst(r['bus']['hist'])}")
         elif k == 'cancelRl':
             out.append(f"cancelRl {r['b']}")
+        elif k in ('expectTimeout', 'expectCancelReq'):
+            out.append(f"{k} {r['x']}")
         elif k == 'expectBegin':
-            out.append(f"expectBegin {r['x']} {r['b']} {keyno(sc, r['key'])} {r['h']} {r['pred']} {0 if r['timeout'] is None else ticks(r['timeout'])}")
+            out.append(f"expectBegin {r['x']} {r['b']} {keyno(sc, r['key'])} {r['h']} {r['pred']} {'-' if r['timeout'] is None else ticks(r['timeout'])}")
             out.append(f"oNHandlers {r['b']} {r['bus']['nh'] + 1}")
         elif k == 'expectEnd':
             out.append(f"expectEnd {r['x']} {'-' if r['got'] is None else r['got']}")
@@ -210,6 +212,8 @@ def translate(row, sid, cfg=None):
             out.append(f"walWrite {r['p']} {r['b']} {r['e']} {int(r['ok'])}")
             if r['ok'] and not r.get('faithful', True):
                 out.append(f"oWalUnfaithful {r['b']} {r['e']} {r['why'].replace(' ', '_')}")
+        elif k == 'expectHang':
+            out.append(f"expectHang {r['x']}")
         elif k == 'waitIdleHang':
             out.append(f"waitIdleHang {r['b']}")
             out.append(f"wiCancel {r['x']}")
